@@ -70,8 +70,9 @@ JudgeRead(T, r, rd) ==
          Cl("edge-pixels-are-each-mappers-own-shifted-by-its-range-start", SamePerm(rd.v, EdgeSeq(T)))
     [] q = "mapper_zero_pixel_list" ->
          LET ms == SelObjs(T, "AbstractMapper")
+             all == UNION { ZeroSet(T, ms[j]) : j \in DOMAIN ms }
          IN Cl("zeroed-pixels-are-each-mappers-own-shifted-by-its-range-start",
-               Len(rd.v) = Len(ms) /\ \A j \in DOMAIN ms : ToSet(rd.v[j]) = ZeroSet(T, ms[j]) /\ Len(rd.v[j]) = Cardinality(ZeroSet(T, ms[j])))
+               ToSet(rd.v) = all /\ Len(rd.v) = Cardinality(all))
     [] q \in ExactDictQs ->
          LET want == Want(T, q, "", "") ok == KeysOK(rd.v, want)
          IN Cl("dictionary-keys-are-the-selected-objects-in-list-order", ok)
